@@ -209,7 +209,7 @@ func genCase(r *common.Rng, corpusKind int) *ccase {
 			for w := 0; w < nw; w++ {
 				n := 1 + r.Intn(5)
 				for j := 0; j < n; j++ {
-					uniq++
+					uniq += 1000 // far apart: increments of a winning value never collide with a later unique value
 					ph.Writers[w] = append(ph.Writers[w], wop{Kind: "set", Key: ph.Shared[r.Intn(len(ph.Shared))], Req: uniq, Meta: meta()})
 				}
 			}
@@ -709,7 +709,20 @@ func runCase(srv *rig.Server, ci int, c *ccase) {
 			time.Sleep(3300 * time.Millisecond) // CloseAfterIdle 1 s + 1 s gap, checked every second
 			c.history = append(c.history, "CUnload")
 		}
-		r.churn(*ph)
+		if ph.Pre == "idle" && len(ph.Sub) > 0 {
+			// the swamp is (most likely) out of memory: let a read summon it while the clients subscribe
+			summoned := make(chan struct{})
+			go func() {
+				_, _ = srv.GW.Get(ctx, &hydrapb.GetRequest{Swamps: []*hydrapb.GetSwamp{{
+					IslandID: island, SwampName: r.swamp, Keys: []string{kname(0)}}}})
+				close(summoned)
+			}()
+			r.churn(*ph)
+			<-summoned
+			r.settleActiveWithin(2 * time.Second)
+		} else {
+			r.churn(*ph)
+		}
 		if c.lost != "" {
 			c.Phases = c.Phases[:i+1]
 			for w := range ph.Writers {
@@ -924,7 +937,7 @@ func main() {
 	args := common.ParseArgs()
 	rig.Quiet()
 	run := common.NewRun(args, "C19", "HV.Swamp.Events")
-	run.Shard = 100
+	run.Shard = 50
 	run.Meta.Rule = "non-trivial: at least one subscriber received an event, and the history contains a write outside a subscription window, a no-op save, a delete/shift, or two writers running concurrently"
 	root, err := os.MkdirTemp("", "c19-")
 	if err != nil {
